@@ -39,6 +39,12 @@ CLAIMS = {
          "share one lock held exclusively at writes, or belong to one single-instance loop; goroutine-captured variables are not stored to after the go statement; published vertices/transactions are written only in their builders.",
          "races inside third-party packages, happens-before through channels, operations outside the property's mix (peer join, startup, shutdown)",
          "interprocedural must-hold locksets over the VTA call graph + per-field access classification on go/ssa"),
+ "C03": ("DESIGN.md §3 C03",
+         "Static pairing/dominance analysis of replay protection: each insertion into the live DAG lies behind the success edge of the index reservation bound to the inserted vertex; the reservation is a get-then-set on one badger transaction and has no other writers; "
+         "it is rolled back on every failing path and on no succeeding path; every tentative-vertex deletion is paired with the removal of its index entry; truncation cannot reach the index removal; reservation runs under the exclusive ledger lock; "
+         "the gossip path checks both stores. This covers every path and interleaving of the check-then-insert, which the three isolated index tests cannot.",
+         "badger transaction semantics, hash collisions, the dynamic 'index points at the holder' invariant beyond pairing",
+         "edge-cut guard dominance with access-path argument binding, path pairing obligations, who-may-write / call-graph reachability on go/ssa"),
 }
 
 NA = {
